@@ -115,6 +115,10 @@ class Unit:
             return False
 
 
+NONNEG_ROLES = {"m2"}                       # Σ (x - mean)^2
+CLAMPED_OUTPUT = {"StandardDeviation"}      # sqrt(max(0, m2 / n)): the clamp inside the output is the same one
+
+
 def inactive_clamp(got, want, eq):
     """got = if <Y below a threshold c> { 0 } else { Y } with Y = want and c <= 0: on an exactly non-negative quantity the
     zero arm is taken only where Y is 0 already, so the clamp changes nothing in real arithmetic.  A threshold above 0
@@ -187,7 +191,9 @@ def check_sums(F, S, tss, classes, s, roles, inv, post_expect, out_expect, rid, 
                 post_terms[r_] = got
                 want = exp[r_]
                 # a non-negativity clamp on an exactly non-negative quantity is inactive in real arithmetic
-                ok = u.eq(got, want) or inactive_clamp(got, want, u.eq)
+                # only a quantity that is non-negative by what it IS (a sum of squared deviations) may be clamped at 0 for free;
+                # clamping a signed sum or a mean changes it
+                ok = u.eq(got, want) or (r_ in NONNEG_ROLES and inactive_clamp(got, want, u.eq))
                 if not ok:
                     fails.append("%s%s: `%s'` = %s, but the window functional requires %s" % (which, " (first call)" if zero else "", b[r_], show(got)[:110], show(want)[:90]))
             oe = out_expect(which, {k: sub(v, gm) for k, v in g.items()}, exp)
@@ -195,7 +201,7 @@ def check_sums(F, S, tss, classes, s, roles, inv, post_expect, out_expect, rid, 
                 got = sub(ret, pre_map)
                 # resolve an inactive clamp inside the output as well
                 alts = [got]
-                for x in subterms(got):
+                for x in (subterms(got) if s in CLAMPED_OUTPUT else ()):
                     if x[0] == "gamma" and (x[2] == cf(0.0) or x[3] == cf(0.0)):
                         keep = x[3] if x[2] == cf(0.0) else x[2]
                         if inactive_clamp(x, keep, u.eq):
